@@ -6,6 +6,7 @@ use crate::ctx::{Ctx, Monitors};
 
 pub mod e1;
 pub mod e2;
+pub mod e3;
 pub mod e5;
 pub mod e6;
 
@@ -91,6 +92,16 @@ pub fn spec(prop: &str, tier: Tier) -> Option<PropSpec> {
             exhaustive: false,
             rule: RULE_E1,
         },
+        "C07" => PropSpec {
+            id: "C07",
+            level: "exploration",
+            batches: vec![
+                Batch { engine: "e3", profile: "debug", runs: e3::exhaustive_count(tier) + if q { 100_000 } else { 4_000_000 } },
+                Batch { engine: "e3", profile: "release", runs: e3::exhaustive_count(tier) + if q { 300_000 } else { 20_000_000 } },
+            ],
+            exhaustive: false,
+            rule: "one evaluation = one expression program (AST encoded by the harness's own encoder) decoded and evaluated by the real evaluator against the seeded World and compared with the reference model (Requires* sequence with every parameter, result pieces, value result, error kind); first block: every program of length <= 2 (quick) / 3 (thorough) over a 38-symbol alphabet after three boundary operands, each under every iteration limit 0..K+1; then seeded valid/random programs with loops, pieces, nested calls, typed values, wrong-typed answers, storage budgets; non-trivial = >=1 operation decoded AND (an injected fault fired OR the comparison ran to its end); distinct = distinct event-stream digests",
+        },
         "C10" => PropSpec {
             id: "C10",
             level: "exploration",
@@ -144,6 +155,7 @@ pub fn gen_case(engine: &str, prop: &str, tier: Tier, master: u64, i: u64) -> Ca
     match engine {
         "e1" => e1::gen_case(prop, tier, master, i),
         "e2" => e2::gen_case(tier, master, i),
+        "e3" => e3::gen_case(tier, master, i),
         "e5" => e5::gen_case(i),
         "e6" => e6::gen_case(tier, master, i),
         _ => panic!("unknown engine {}", engine),
@@ -155,6 +167,7 @@ pub fn dispatch(case: &Case, ctx: &mut Ctx<'_>) {
     match case.engine.as_str() {
         "e1" => e1::run(case, ctx),
         "e2" => e2::run(case, ctx),
+        "e3" => e3::run(case, ctx),
         "e5" => e5::run(case, ctx),
         "e6" => e6::run(case, ctx),
         other => panic!("unknown engine {}", other),
